@@ -94,4 +94,9 @@ def jobs(tier):
         add('from_i32_d%d' % k, 'h_from_i32', ['C04'], 24, _cls(k), 900, 'from_integer<int32_t>', 'all int32 with %d digits' % k)
     for k in range(1, (6 if t else 4)):
         add('rt_i64_d%d' % k, 'h_rt_i64', ['C04', 'C01'], 24, _cls(k), 900, 'dec_to_integer(from_integer(v)) == v', 'all int64 with %d digits' % k)
+    # C05: the same harnesses in safety mode (clang UBSan traps for signed overflow / shifts / bounds lowered to assertions + CBMC pointer checks)
+    SAFETY_IDS = ['dec_u64', 'dec_i64', 'dec_i32', 'hex_i64', 'toi_i64_n3', 'toi_i64_negdec9_n20', 'from_i64_extreme', 'from_i32_extreme', 'from_i8_d3', 'rt_hex_i64', 'is_base10']
+    for j in list(J):
+        if j['id'] in SAFETY_IDS:
+            J.append(dict(j, id=j['id'] + '_safety', props=['C05'], safety=True, desc=j['desc'] + ' [safety mode]'))
     return J
